@@ -148,6 +148,23 @@ Proof.
   cbn [length]. rewrite ?app_length. cbn [length]. lia.
 Qed.
 
+Theorem this_and_that_ambiguous root x y n d d' par std :
+  In n (in_cols x) -> In n (in_cols y) ->
+  resolve (mkScope root (mkFrame [x] d) (Some (mkFrame [y] d')) par std) ([], n) = RErr EAmbiguous.
+Proof.
+  intros Hx Hy. apply scope_ambiguous. unfold lookup, that_lookup. cbn [fst snd s_root s_this s_that s_param s_std].
+  unfold frame_lookup. cbn [fst snd f_direct f_inputs inputs_any].
+  set (cx := map (CInput false 0) (index_of n (in_cols x) 0)).
+  set (cy := map (CInput true 0) (index_of n (in_cols y) 0)).
+  assert (cx <> []) as Nx.
+  { unfold cx. intro E. apply map_eq_nil in E. revert E. apply index_of_In. exact Hx. }
+  assert (cy <> []) as Ny.
+  { unfold cy. intro E. apply map_eq_nil in E. revert E. apply index_of_In. exact Hy. }
+  rewrite !app_length.
+  destruct cx as [|a cx']; [congruence|]. destruct cy as [|b cy']; [congruence|].
+  cbn [length]. rewrite ?app_length. cbn [length]. lia.
+Qed.
+
 (* ------------------------------------------------------------------ (c)(d)(e) function application *)
 
 Theorem too_many_args_rejected f args named :
@@ -197,6 +214,24 @@ Proof.
   pose proof (args_ok_scalar_for_rel _ _ _ Hp Ha) as H.
   destruct (args_ok (fs_params f) args); [eauto | congruence].
 Qed.
+
+(* a let-bound constant (or a parameter value) in a relation position is a scalar argument, hence rejected *)
+Theorem constant_where_relation_rejected sc n f args named i k :
+  lookup (shadowed sc) ([], n) = [CRoot NValue] \/ lookup (shadowed sc) ([], n) = [CParam NValue] ->
+  rel_arg_kind sc ([], n) = Some k ->
+  nth_error (fs_params f) i = Some PRel -> nth_error args i = Some k ->
+  length args = length (fs_params f) ->
+  exists e, apply_fn f args named = AErr e.
+Proof.
+  intros H K Hp Ha L. assert (k = AScalar) as ->.
+  { unfold rel_arg_kind in K. destruct H as [H|H]; rewrite H in K; injection K as <-; reflexivity. }
+  eapply scalar_where_relation_rejected; eassumption.
+Qed.
+
+(* a positional parameter's name is not a named parameter *)
+Theorem named_arg_must_be_a_named_param f args named n :
+  In n named -> existsb (leqb n) (fs_named f) = false -> apply_fn f args named = AErr EUnknownNamed.
+Proof. apply unknown_named_arg_rejected. Qed.
 
 (* ------------------------------------------------------------------ passthrough *)
 
